@@ -220,7 +220,7 @@ def build_cpp(name, driver_src, repo_srcs=(), flags=None, extra_srcs=(), libs=()
     flags = list(CXXFLAGS if flags is None else flags)
     drv = os.path.join(ROOT, driver_src)
     extra = [os.path.join(ROOT, e) for e in extra_srcs]
-    hdrs = [os.path.join(ROOT, "harness", "common.hpp")]
+    hdrs = sorted(os.path.join(ROOT, "harness", f) for f in os.listdir(os.path.join(ROOT, "harness")) if f.endswith((".hpp", ".h")))
     key = file_hash([drv] + extra + hdrs, repo_hash() + " ".join(flags) + " ".join(libs) + " ".join(defines) + " ".join(repo_srcs))
     outdir = os.path.join(CACHE, "cpp")
     os.makedirs(outdir, exist_ok=True)
